@@ -461,7 +461,7 @@ def endpoint_harness(doc: dict, package: str, data: Any, cfg: Any, list_max: int
     from openapi_python_client import utils
 
     eps = endpoints(data)
-    src_head = [HEADER, f"from {package}.types import UNSET, Unset, File", f"from {package} import errors as _errors", f"from {package}.client import AuthenticatedClient, Client", "import inspect", "from vlib.e3_support import request_ok, response_ok"]
+    src_head = [HEADER, f"from {package}.types import UNSET, Unset, File", f"from {package} import errors as _errors", f"from {package}.client import AuthenticatedClient, Client", "import inspect", "from vlib.e3_support import missing_piece, request_ok, response_ok"]
     body_src: list[str] = []
     funcs: list[str] = []
     meta: dict = {}
@@ -503,7 +503,10 @@ def _req_condition(doc, package, path, method, op, ep, alias, list_max, str_max,
         loc, name = p["in"], p["name"]
         prop = next((x for x in by_loc[loc] if x.name == name), None)
         if prop is None:
-            raise SkeletonError(f"parameter {name} in {loc} not in parsed endpoint")
+            # the document declares it, the generated function has no argument for it: that *is* the violation
+            fn = f"req_{alias[3:]}"
+            why = f"document declares parameter {name!r} in {loc} for {method.upper()} {path}, but the generated function has no argument for it"
+            return f'def {fn}() -> bool:\n    """\n    post: _\n    """\n    return missing_piece({why!r})\n', fn
         pyname = str(prop.python_name)
         py, wire = f"a{i}", f"w{i}"
         required = bool(p.get("required")) or loc == "path"
@@ -604,9 +607,7 @@ def _resp_condition(doc, package, path, method, op, ep, alias, list_max, str_max
             ci = int(code)
         except ValueError:
             continue
-        if not any(int(x.status_code) == ci for x in ep.responses):
-            continue
-        r = deref(doc, r)
+        r = deref(doc, r)  # a documented status the generated function does not handle is a violation, not a skip
         codes.append(ci)
         lines.append(f"    {'if' if first else 'elif'} {status} == {ci}:")
         first = False
@@ -718,8 +719,9 @@ def run(family: str, skeleton: str, prefixes: list[str], timeout: int = 90, conf
     try:
         pkg = f"sk_{skeleton}"
         errs, pdir = gen.generate(d, root, pkg, **config)
-        if errs:
-            return result("error", f"skeleton {skeleton} is not accepted cleanly by the generator: {[(e.header, e.detail) for e in errs][:3]}")
+        diag = [f"{e.header} {e.detail}"[:200] for e in errs]
+        if any(getattr(e.level, "value", "") == "ERROR" for e in errs):
+            return result("error", f"skeleton {skeleton} is rejected by the generator: {diag[:3]}")
         data, cfg = gen.parse(d, **config)
         thorough = tier == "thorough"
         if family == "model":
@@ -746,6 +748,10 @@ def run(family: str, skeleton: str, prefixes: list[str], timeout: int = 90, conf
         ]
         if skipped:
             res["detail"] += f"; skipped by harness generator: {skipped}"
+        if diag:
+            res["detail"] += f"; generator diagnostics on this skeleton: {diag[:3]}"
+            for w in res["witnesses"]:
+                w["generator_diagnostics"] = diag
         res["cases"] = [f"{skeleton}/{c}" for c in res.get("cases", [])]
         res["solver_s"] = round(time.time() - t0, 1)
         return res
